@@ -604,16 +604,17 @@ EXTRA = {
     "C01": "Tracer callbacks are also interpreted for receivers whose attribute lookup raises KeyError / ZeroDivisionError / decimal signals (nothing may escape into the module under test).",
     "C02": "C02.isolation interprets init_trace / analyze_results over ExecutionTrace objects: every execution gets a private copy of the import trace, stored traces of results are never used as accumulator.",
     "C03": "C03.isolation: outcomes recorded by one execution do not reach the import trace, a later execution or another test's result (same interpretation as C02.isolation, predicate maps).",
-    "C04": "Byte-string distances are also evaluated for non-UTF-8 operands.",
+    "C04": "Byte-string distances are also evaluated for non-UTF-8 operands; the partition includes user classes with partial / inconsistent rich-comparison protocols, str subclasses with their own comparison, containers whose __contains__ disagrees with iteration, and exception classes with a metaclass hook or ABC registration (MRO oracle).",
     "C05": "C05.record: every predicate callback reaches _update_metrics; an early return is allowed only under the one-shot-iterator guard of its operand and never under a condition that reads tracer state.",
     "C07": "C07.deps interprets the control-dependence queries over graphs with chains of unlabelled edges, a single-call fixed point and roots reached through two unlabelled controllers.",
     "C11": "The Chromosome comparison / sorting helpers are checked to be stateless between calls.",
     "C12": "C12.laws interprets ComputationCache over every sequence (depth 3 quick / 4 thorough) of registrations, chromosome changes and queries: each getter returns what the registered functions compute on the current state.",
     "C13": "C13.aliasing (taint): archived solutions reach local search only through clone().",
-    "C14": "RankSelection.get_index additionally satisfies a frequency law over a fixed grid of draws (better ranks are selected at least as often).",
+    "C08": "C08.pipeline interprets from_path + get_scope + should_be_covered / should_cover_line over small modules x configurations (only-cover / no-cover nesting, definitions in excluded blocks, separators that do not end a line, async for, names defined twice, else branches of TYPE_CHECKING / __main__, marker flags); C08.read interprets read_module_ast over a representative file system (BOM, encoding declaration).",
+    "C14": "C14.assignment interprets compute_ranking_assignment over populations with structurally equal individuals (partition by identity, rank == front index). RankSelection.get_index additionally satisfies a frequency law over a fixed grid of draws (better ranks are selected at least as often).",
     "C15": "C15.container interprets TestCase (registry == bound variables after add / chop / batch removal, clone independence); C15.cascade interprets delete_statement_gracefully over every well-formed 4-statement test case: no read is left without a binder and nothing outside the dependency closure is removed.",
     "C16": "sorted(..., key=...) sites are accepted only with an injective key from an enumerated table.",
-    "C17": "C17.budgets interprets get_stopping_conditions: one condition per configured budget, also when budgets carry equal numbers, and every observer is attached.",
+    "C17": "C17.budgets interprets get_stopping_conditions: one condition per configured budget, also when budgets carry equal numbers, and every observer is attached. C17.charged (must-pass): a substitute result (timeout=True) carries the number of started statements before it reaches the budget observers.",
     "C18": "The filter that removes non-holding assertions is called unconditionally before export.",
     "C20": "C20.nameable: isinstance assertions only for types that can be named in an expression; fields with non-identifier names are not followed.",
     "C21": "C21.unchecked (must-pass / guard dominance): a mutant that was not executed returns the skip token and is counted and collected only under `is not None`; C21.own-rendering: no verification-observer state is keyed by assertion objects, whose equality conflates 1 and True; removing non-holding assertions that raises is a finding.",
